@@ -852,6 +852,11 @@ More5 == <<
      Items |-> SqS(<<Nd("ExprArrayItem", [f |-> "empty"]), Ch("listitem", 0), Nd("ExprArrayItem", [f |-> "empty"]), Ch("listitem", 0)>>, "SeparatorTkns", ","), CloseBracketTkn |-> Tk(")")]),
   V("ExprArray/trailing", "ExprArray", {"expr"}, "both", L.atom, FALSE,
     [OpenBracketTkn |-> Tk("["), Items |-> SqS(<<Ch("arrayitem", 0), Ch("arrayitem", 0), Nd("ExprArrayItem", [f |-> "empty"])>>, "SeparatorTkns", ","), CloseBracketTkn |-> Tk("]")]),
+  \* the same in constant expressions (property defaults, static variables: PHP 5 has a grammar of its own for them)
+  V("ExprArray/statictrailing", "ExprArray", {"scalar"}, "both", L.atom, FALSE,
+    [OpenBracketTkn |-> Tk("["), Items |-> SqS(<<Ch("staticitem", 0), Ch("staticitem", 0), Nd("ExprArrayItem", [f |-> "empty"])>>, "SeparatorTkns", ","), CloseBracketTkn |-> Tk("]")]),
+  V("ExprArray/statictrailing1", "ExprArray", {"scalar"}, "both", L.atom, FALSE,
+    [ArrayTkn |-> Tk("array"), OpenBracketTkn |-> Tk("("), Items |-> SqS(<<Ch("staticitem", 0), Nd("ExprArrayItem", [f |-> "empty"])>>, "SeparatorTkns", ","), CloseBracketTkn |-> Tk(")")]),
   V("ExprArray/trailing1", "ExprArray", {"expr"}, "both", L.atom, FALSE,
     [ArrayTkn |-> Tk("array"), OpenBracketTkn |-> Tk("("), Items |-> SqS(<<Ch("arrayitem", 0), Nd("ExprArrayItem", [f |-> "empty"])>>, "SeparatorTkns", ","), CloseBracketTkn |-> Tk(")")]),
   \* a braced property name inside a class reference:  new $a->{$b}
